@@ -24,6 +24,9 @@ type Case struct {
 	// FailKind 1: the failing statement violates a foreign key (the journal references itself, the URL carries _fk=1):
 	// without a transaction the statement fails at once, inside one the violation is found when the file's transaction commits.
 	FailKind int `json:"fail_kind,omitempty"`
+	// Fail2J > FailJ: a second failing statement further down the same file. The first one is repaired and the directory
+	// re-applied (stops at the second one), then the second one is repaired and the directory applied once more.
+	Fail2J int `json:"fail2_j,omitempty"`
 	// Ckpt: 0-based indexes of the files that are checkpoints. A fresh database starts at the last one (which creates the
 	// journal itself, IF NOT EXISTS, as its first statement); the files before it never run and are never recorded.
 	Ckpt []int `json:"ckpt,omitempty"`
@@ -76,7 +79,7 @@ func stmt(f, j int, failing bool, kind int, ck bool) string {
 	return fmt.Sprintf("INSERT INTO journal (id) VALUES (%d);\n", id(f, j))
 }
 
-func (c Case) file(f int, fixed bool) string {
+func (c Case) file(f int, fixed int) string {
 	var b strings.Builder
 	if f < len(c.Directives) && c.Directives[f] != "" {
 		b.WriteString("-- atlas:txmode " + c.Directives[f] + "\n\n")
@@ -85,7 +88,8 @@ func (c Case) file(f int, fixed bool) string {
 		b.WriteString("-- atlas:checkpoint\n\n")
 	}
 	for j := 0; j < c.Shape[f]; j++ {
-		b.WriteString(stmt(f, j, !fixed && f == c.FailF && j == c.FailJ, c.FailKind, c.isCk(f)))
+		failing := f == c.FailF && (fixed == 0 && j == c.FailJ || fixed <= 1 && c.Fail2J > 0 && j == c.Fail2J)
+		b.WriteString(stmt(f, j, failing, c.FailKind, c.isCk(f)))
 	}
 	return b.String()
 }
@@ -222,7 +226,7 @@ func checkCase(c Case) (Outcome, error) {
 		return out, fmt.Errorf("harness: %v", err)
 	}
 	defer sb.Close()
-	write := func(fixed bool) error {
+	write := func(fixed int) error {
 		for f := range c.Shape {
 			sb.WriteFile(fmt.Sprintf("m/%d_f.sql", f+1), c.file(f, fixed))
 		}
@@ -231,7 +235,7 @@ func checkCase(c Case) (Outcome, error) {
 		}
 		return nil
 	}
-	if err := write(false); err != nil {
+	if err := write(0); err != nil {
 		return out, err
 	}
 	dbp := sb.Path("db.sqlite")
@@ -292,10 +296,30 @@ func checkCase(c Case) (Outcome, error) {
 		return out, nil
 	}
 	// fix the file, re-hash, re-run: same final state as a run without failure
-	if err := write(true); err != nil {
+	argsAll := []string{"migrate", "apply", "--dir", "file://m", "--url", url, "--tx-mode", c.Mode}
+	if c.Fail2J > 0 {
+		// repair the first failing statement only: the re-run stops at the second one, as a first run failing there would
+		if err := write(1); err != nil {
+			return out, err
+		}
+		rm := sb.Run(argsAll...)
+		mid, err := readCanon(dbp)
+		if err != nil {
+			return out, fmt.Errorf("harness: %v", err)
+		}
+		second := c
+		second.FailJ, second.Fail2J, second.Count = c.Fail2J, 0, 0
+		if rm.Code == 0 {
+			return out, fmt.Errorf("the re-run with the second failing statement (file %d stmt %d) still in place exits 0: %v", c.FailF+1, c.Fail2J+1, rm)
+		}
+		if w := second.expected(); norm(mid) != norm(w) {
+			return out, fmt.Errorf("after repairing the first failing statement and re-running (second failing statement: file %d stmt %d) the database is\n   %v\n expected\n   %v\n%v", c.FailF+1, c.Fail2J+1, mid, w, rm)
+		}
+		got = mid
+	}
+	if err := write(2); err != nil {
 		return out, err
 	}
-	argsAll := []string{"migrate", "apply", "--dir", "file://m", "--url", url, "--tx-mode", c.Mode}
 	r2 := sb.Run(argsAll...)
 	if r2.Code != 0 {
 		return out, fmt.Errorf("after fixing the failing statement the re-run fails: %v\n state before the re-run: %v", r2, got)
@@ -305,7 +329,7 @@ func checkCase(c Case) (Outcome, error) {
 		return out, fmt.Errorf("harness: %v", err)
 	}
 	clean := c
-	clean.FailF, clean.Count = -1, 0
+	clean.FailF, clean.Count, clean.Fail2J = -1, 0, 0
 	if w := clean.expected(); norm(fin) != norm(w) {
 		return out, fmt.Errorf("after fixing the file and re-running, the database is\n   %v\n a run without failure gives\n   %v", fin, w)
 	}
